@@ -28,6 +28,9 @@ async def run_scenario(mods, case):
     proto = getattr(jr, PROTO_CLASS[case['proto']])
     gates = {}
     errs = set(case.get('errs', ())) | ({0} if case.get('err') else set())
+    # notifications whose handler fails (RPCError / another exception by member parity): still
+    # nothing may be emitted for them
+    nerrs = set(case.get('nerrs', ())) | ({0} if case.get('err') else set())
     seen_notifs = []
 
     class Server(session_mod.RPCSession):
@@ -40,6 +43,8 @@ async def run_scenario(mods, case):
             m = request.args[0]
             if isinstance(request, jr.Notification):
                 seen_notifs.append(m)
+                if m in nerrs:
+                    raise jr.RPCError(77, 'notification failed') if m % 2 == 0 else ValueError('boom')
                 return None
             await gates.setdefault(m, asyncio.Event()).wait()
             result, _ = result_for(jr, m, m in errs)
